@@ -395,7 +395,12 @@ def run(ctx):
         zeros = rng.randint(1, n - 1)
         op = rng.choice([222, 223, 224])
         tail = [33007] * zeros if op == 222 else ([8023] if op == 224 else []) + [op * 1000 + 255] * zeros
-        ids = els + [op * 1000, 236000, 101000 + n, 31031] + tail
+        if k % 2:
+            # every element also carries an associated field: an attribute step then never fails for lack of
+            # attributes, it just finds no 033007 / marker on the elements the subset's bitmap leaves out
+            ids = [204008, 31021] + els + [204000, op * 1000, 236000, 101000 + n, 31031] + tail
+        else:
+            ids = els + [op * 1000, 236000, 101000 + n, 31031] + tail
         nsub = rng.choice([2, 3])
         bits = [0] * zeros + [1] * (n - zeros)
         variants = []
